@@ -2,6 +2,7 @@ package props
 
 import (
 	"fmt"
+	"go/types"
 	"sort"
 
 	"czcheck/an"
@@ -41,4 +42,53 @@ func ProbeLookahead(p *an.Prog) {
 		}
 	}
 	fmt.Println("total", tot, "undischarged", bad)
+}
+
+// ProbeMapRanges lists range-over-map loops in module code.
+func ProbeMapRanges(p *an.Prog) {
+	for _, fn := range p.ModFuncs {
+		an.Instrs(fn, func(in ssa.Instruction) {
+			r, ok := in.(*ssa.Range)
+			if !ok {
+				return
+			}
+			if _, isMap := r.X.Type().Underlying().(*types.Map); !isMap {
+				return
+			}
+			// loop body calls
+			var calls []string
+			for _, ref := range *r.Referrers() {
+				nx, ok := ref.(*ssa.Next)
+				if !ok {
+					continue
+				}
+				l := an.InnermostLoop(nx.Block())
+				if l == nil {
+					continue
+				}
+				seen := map[string]bool{}
+				for b := range l.Blocks {
+					for _, x := range b.Instrs {
+						if ci, ok := x.(ssa.CallInstruction); ok {
+							n := an.CalleeName(ci)
+							if !seen[n] {
+								seen[n] = true
+								calls = append(calls, n)
+							}
+						}
+						if _, ok := x.(*ssa.Store); ok && !seen["STORE"] {
+							seen["STORE"] = true
+							calls = append(calls, "STORE")
+						}
+						if _, ok := x.(*ssa.MapUpdate); ok && !seen["MAPUPDATE"] {
+							seen["MAPUPDATE"] = true
+							calls = append(calls, "MAPUPDATE")
+						}
+					}
+				}
+			}
+			sort.Strings(calls)
+			fmt.Printf("%s | %s | range %s | %v\n", p.Position(r.Pos()), an.RelName(fn), an.Expr(r.X), calls)
+		})
+	}
 }
